@@ -26,7 +26,8 @@ RULE = ('gates = data/gates.json (69-74 inputs per year, reviewed). End-to-end: 
         'gate (and sometimes 1-2 more) answered so as to declare the situation; the recording input store must show the gate read with '
         'that value; verdict must not be "solved". Isolated: owning lines with the gate declared and all other reads drawn by type. '
         'Limit recipes with a just-below control. Non-trivial = a case in which at least one gate was consulted with the declaring '
-        'value; distinct = (year, set of gates consulted, forms); the headline number is gates covered / gates listed')
+        'value; distinct = (year, set of gates consulted, forms); the headline number is gates covered / gates listed'
+        " Isolated: two recorded witnesses per (gate, owning line), the second with the fewest other boxes ticked. Status-indexed limits whose far side is not implemented are probed for every year x status at drawn distances; the payer-row recipe is enumerated per year and row-amount style; inputs that only the changed return demands are answered by the persona's policy.")
 ASSUMPTIONS = ['data/gates.json is the reviewed list of inputs that declare an unsupported situation (bootstrap by differential discovery, review in the file)',
                'an abort (unsupported form, e.g. Schedule 2) counts as "does not succeed"']
 
@@ -475,6 +476,8 @@ def run(ctx):
     hyp.pmap(ctx, shard_limits, [((120 if quick else 3000) // 8, ctx.seed * 1000 + 300 + k) for k in range(8)])
     hyp.pmap(ctx, shard_limits, [(3 if quick else 40, ctx.seed * 1000 + 400 + j, ('payers', year, style))
                                  for j, (year, style) in enumerate((y_, s_) for y_ in catalog.YEARS for s_ in ('big', 'small_then_big', 'mixed'))])
+    hyp.pmap(ctx, shard_limits, [(4 if quick else 60, ctx.seed * 1000 + 450 + j, (recipe, year, None))
+                                 for j, (recipe, year) in enumerate((r_, y_) for r_ in ('foreign_tax', 'educator', 'hsa', 'oid') for y_ in catalog.YEARS)])
     covered = ctx.lists.get('gates_covered', set())
     ctx.extra['gates_listed'] = total
     ctx.extra['gates_consulted_end_to_end'] = len(covered)
